@@ -13,6 +13,14 @@ pub open spec fn all_depots(net: &Network, s: Seq<NodeIdx>) -> bool {
     forall|i: int| 0 <= i < s.len() ==> (#[trigger] net.sp_node(s[i])).sp_is_depot()
 }
 
+/// A-len: the nodes of a well-formed tour are pairwise distinct (strictly increasing start times) and
+/// there are at most 2^16 service and 2^16 maintenance indices (Idx = u16), so a tour has at most
+/// 2^17 + 2 nodes; operations take this as a stated precondition on their inputs (`tour_len_ok`), the
+/// lemmas work up to twice that (`len_ok`) so that a tour + an inserted path is covered.
+pub open spec fn tour_len_ok(s: Seq<NodeIdx>) -> bool { s.len() <= 0x2_0002 }
+pub open spec fn len_ok(s: Seq<NodeIdx>) -> bool { s.len() <= 0x4_0004 }
+
+
 impl Tour {
     pub open spec fn len(&self) -> int { self.nodes@.len() as int }
     pub open spec fn node_at(&self, j: int) -> Node { self.network.sp_node(self.nodes@[j]) }
